@@ -125,3 +125,11 @@ NOT_APPLICABLE = [
     {'property_id': 'C18', 'reason': 'deadlock freedom / linearizability over OS threads, file locks and tokio; outside both verifiers (DESIGN.md section 6)'},
     {'property_id': 'C19', 'reason': 'status store is a cache written through storage under an RwLock from network paths; the only pure kernel is Vec::retain over URI values, nothing proof-level can be offered (DESIGN.md section 6)'},
 ]
+REGISTRY['C02'] = {
+    'v': ['c02_childcerts'],
+    'k': [],
+    'level_text': 'Per-operation contracts on the issuing side only: the per-class certificate store keeps one record per child key (issued XOR suspended) under every mutator, whatever the suspension history; shrink_overclaiming handles every over-claiming certificate (issued and suspended) by re-issuing exactly limit(intersection(new, old)) contained in the new certificate, or revoking when the intersection is empty, and touches nothing else (unbounded, all stores, loop invariants). Convergence and idempotence of parent-child synchronisation over histories are not decided.',
+    'level_note': 'ResourceSet algebra (contains/intersection/is_empty), RequestResourceLimit::apply_to and the signer are uninterpreted externals; HashMap key model assumed for KeyIdentifier.',
+    'design_ref': 'DESIGN.md section 5 / C02',
+    'not_covered': ['wants_update / 10% rule, set_incoming_cert request clearing (keys.rs)', 'entitlement class computation (certauth.rs:986-1084)', 'sync driver (manager.rs), taproxy/tasigner issuance', 'convergence in a bounded number of syncs; idempotence of a further sync (history properties)'],
+}
